@@ -421,6 +421,12 @@ class Pure:
             return self.ev(node.body, env)
         if z3.is_false(cs):
             return self.ev(node.orelse, env)
+        if self.st is not None and L._qf(cs):
+            # decide the condition under the path condition (keeps spec terms identical to the code's on this path)
+            if L.entails(self.st, cs):
+                return self.ev(node.body, env)
+            if L.entails(self.st, z3.Not(cs)):
+                return self.ev(node.orelse, env)
         a, b = self.ev(node.body, env), self.ev(node.orelse, env)
         return L.ite_val(c, a, b)
 
@@ -558,6 +564,17 @@ class Pure:
                     raise EngineError("spec: now() outside a postcondition")
                 saved = self.env_now
                 return self.ev(node.args[0], dict(env, **{k: v for k, v in saved.items() if k in env}))
+            if name == "seq_of":
+                n = to_int(self.ev(node.args[0], env))
+                lam = node.args[1]
+                vn = lam.args.args[0].arg
+                ev_, env_ = self.ev, env
+                return L.RSeq(n, lambda i, lam=lam, vn=vn: ev_(lam.body, dict(env_, **{vn: Num(i, "int")})), "list", "real", False, False)
+            if name == "arr_of":
+                v = self.ev(node.args[0], env)
+                A = L.array_term(self.I, self.st, v)
+                r = L.RSeq(v.length, L.arr_elem(A, "real"), "list", "real", False, False, arr=A)
+                return r
             if name == "sum_range":
                 lo, hi = to_int(self.ev(node.args[0], env)), to_int(self.ev(node.args[1], env))
                 lam = node.args[2]
@@ -620,7 +637,7 @@ class Pure:
                 x, y = (a.t, b.t) if k == "int" else (to_real(a), to_real(b))
                 return Num(z3.If(x <= y, x, y) if name == "min" else z3.If(x >= y, x, y), k)
             if name == "pw":
-                return Num(POW(to_real(args[0]), to_real(args[1])), "real")
+                return Num(POW(z3.simplify(to_real(args[0])), z3.simplify(to_real(args[1]))), "real")
             if name == "trunc":
                 return Num(trunc_real(to_real(args[0])), "int")
             if name == "float":
@@ -656,8 +673,18 @@ class Pure:
                         subst.append((fv_, to_int(a)))
                     else:
                         subst.append((fv_, to_real(a)))
-                self.defs.append(z3.substitute(body, *subst))
+                inst = z3.substitute(body, *subst)
                 self.I.lemmas_applied.add(name)
+                if z3.is_implies(inst) and self.st is not None:
+                    # Dafny-style lemma call: the instance's premise is an obligation *here*, only its conclusion is assumed
+                    ante, concl = inst.children()
+                    for d in self.defs:
+                        self.st.assume(d)
+                    self.defs = []
+                    self.I.oblige(self.st, ante, "lemma-pre", name, f"{self.file.split('/')[-1]}:{node.lineno}", assume=False)
+                    self.defs.append(concl)
+                else:
+                    self.defs.append(inst)
                 return BoolN(True)
             if name in ("min_of", "max_of"):
                 v = args[0]
